@@ -1,8 +1,45 @@
 import NetaddrVerif.Model.Proto
-/-! Driver ops of property C16 (stub: filled in by the property's model). -/
+import NetaddrVerif.Model.Convert
+/-! Driver ops of property C16: `to4 obj` · `to6 obj compat` · `mapped obj` · `rt46 obj compat`
+    (obj = `A:ver:val` or `N:ver:val:plen`). -/
 namespace NV.Driver.C16
-open NV NV.Proto
+open NV NV.Proto NV.Convert
 
-def handle (_op : String) (_args : List String) : Option String := none
+def showA : R Addr → String
+  | .ok a => s!"A:{a.ver}:{a.val}"
+  | .error e => showErr e
+
+def showN : R Net → String
+  | .ok n => s!"N:{n.ver}:{n.val}:{n.plen}"
+  | .error e => showErr e
+
+def parseBool (s : String) : Option Bool :=
+  if s = "T" then some true else if s = "F" then some false else none
+
+def handle (op : String) (args : List String) : Option String :=
+  match op, args with
+  | "to4", [o] =>
+    match parseAddr o, parseNet o with
+    | some a, _ => some (showA (addrIpv4 a))
+    | _, some n => some (showN (netIpv4 n))
+    | _, _ => none
+  | "to6", [o, c] => do
+    let c ← parseBool c
+    match parseAddr o, parseNet o with
+    | some a, _ => some (showA (addrIpv6 a c))
+    | _, some n => some (showN (netIpv6 n c))
+    | _, _ => none
+  | "rt46", [o, c] => do
+    let c ← parseBool c
+    match parseAddr o, parseNet o with
+    | some a, _ => some (showA (addrIpv6 a c >>= addrIpv4))
+    | _, some n => some (showN (netIpv6 n c >>= netIpv4))
+    | _, _ => none
+  | "mapped", [o] =>
+    match parseAddr o, parseNet o with
+    | some a, _ => some (showBool (isIpv4Mapped a.ver a.val) ++ " " ++ showBool (isIpv4Compat a.ver a.val))
+    | _, some n => some (showBool (isIpv4Mapped n.ver n.val) ++ " " ++ showBool (isIpv4Compat n.ver n.val))
+    | _, _ => none
+  | _, _ => none
 
 end NV.Driver.C16
